@@ -944,6 +944,12 @@ func (e *SpecEnv) call(n SCall) (Term, error) {
 
 // resolveLocal finds the SSA value bound to a source-level name at the given block (through DebugRefs and phis).
 func (vc *VC) resolveLocal(name string, at *ssa.BasicBlock, heap Heap, phiOverride map[*ssa.Phi]Term) (Term, bool) {
+	return vc.resolveLocalBefore(name, at, -1, heap, phiOverride)
+}
+
+// resolveLocalBefore: as resolveLocal, but inside block `at` only instructions before index `limit` count (limit < 0:
+// the whole block, used at loop heads where the header's own references are the loop-carried values).
+func (vc *VC) resolveLocalBefore(name string, at *ssa.BasicBlock, limit int, heap Heap, phiOverride map[*ssa.Phi]Term) (Term, bool) {
 	// phis at loop headers / joins named by comment
 	var best ssa.Value
 	bestPos := -1
@@ -951,6 +957,9 @@ func (vc *VC) resolveLocal(name string, at *ssa.BasicBlock, heap Heap, phiOverri
 	others := map[ssa.Value]bool{}
 	consider := func(v ssa.Value, b *ssa.BasicBlock, idx int, isAddr bool) {
 		if b != at && !b.Dominates(at) {
+			return
+		}
+		if b == at && limit >= 0 && idx >= limit {
 			return
 		}
 		p, ok := vc.rpoPos[b.Index]
